@@ -99,6 +99,54 @@ def related(a, c):
     return a[:n] == c[:n]
 
 
+def _only_incremented(cb, loc):
+    """every write to `loc` in body cb is `loc = loc + k` with a constant k >= 0 (also through the checked-add tuple), and no
+    `&mut` to it is handed to a call"""
+    for pt, s in cb.points():
+        if s['k'] == 'assign' and s['p']['pr']:
+            d = loc_of_place(cb, s['p'])
+            if d != loc:
+                if d is not None and related(d, loc):
+                    return False
+                continue
+            r = s['r']
+            src = None
+            if r['k'] == 'bin':
+                src = r
+            elif r['k'] == 'use' and r['o']['k'] in ('copy', 'move') and r['o']['p']['pr'] and not any(x == '*' for x in r['o']['p']['pr'][:1]) \
+                    and isinstance(r['o']['p']['pr'][0], dict) and r['o']['p']['pr'][0].get('f') == 0:
+                dd = _single_def(cb, r['o']['p']['l'])
+                if dd is not None and dd[1] == 'assign' and dd[2]['r']['k'] == 'bin':
+                    src = dd[2]['r']
+            if src is None or src['op'].replace('WithOverflow', '') != 'Add':
+                return False
+            a, b_ = src['a'], src['b']
+            if not (b_['k'] == 'const' and isinstance(b_.get('int'), int) and b_['int'] >= 0 and a['k'] in ('copy', 'move')
+                    and loc_of_place(cb, a['p']) == loc):
+                return False
+        elif s['k'] == 'call':
+            for a in s['args']:
+                if a['k'] in ('copy', 'move'):
+                    ty = cb.local_ty(a['p']['l']) if not a['p']['pr'] else (a['p'].get('ty') or '')
+                    if ty.startswith('&mut'):
+                        d = loc_of_place(cb, a['p'])
+                        if d is not None and related(d, loc):
+                            return False
+    return True
+
+
+def _touches(cb, loc):
+    for pt, s in cb.points():
+        places = []
+        if s['k'] == 'assign':
+            places.append(s['p'])
+        for pl in places:
+            d = loc_of_place(cb, pl)
+            if d is not None and related(d, loc):
+                return True
+    return False
+
+
 def captured_by(b):
     """closure local -> locations it captures by mutable reference (a call that receives the closure may write them)"""
     out = {}
@@ -111,6 +159,24 @@ def captured_by(b):
                         d = loc_of_place(b, o['p'])
                         if d is not None:
                             out.setdefault(s['p']['l'], set()).add(d)
+    return out
+
+
+def captured_monotone(b):
+    """(closure local, captured location) pairs where the closure (and its nested closures) only ever increases the location"""
+    out = set()
+    if b.facts is None:
+        return out
+    for pt, s in b.points():
+        if s['k'] == 'assign' and s['r']['k'] == 'agg' and s['r'].get('ak') == 'closure' and not s['p']['pr']:
+            cb = b.facts.body(s['r'].get('path'))
+            ups = (cb.d.get('upvars') or []) if cb is not None else []
+            for k, o in enumerate(s['r']['ops']):
+                if k < len(ups) and o['k'] in ('copy', 'move'):
+                    d = loc_of_place(b, o['p'])
+                    C = (1, ('f', ups[k]['n']))
+                    if d is not None and _only_incremented(cb, C) and not any(_touches(cc, C) for cc in b.facts.closures_of(cb)):
+                        out.add((s['p']['l'], d))
     return out
 
 
@@ -388,6 +454,7 @@ class BoundsAnalysis:
         self.f = facts
         self.b = body
         self.caps = captured_by(body)
+        self.mono_caps = captured_monotone(body)
         self.getters = getters or {}
         self.cmp = {}          # bool local -> (op, xvar/const, yvar/const)
         self.sites = {}
@@ -397,6 +464,7 @@ class BoundsAnalysis:
         self.entry = None          # entry zone (closures: facts about immutably captured locations)
         self.calls_made = {}       # crate-local callee key -> [projected zone per call site]
         self.arith = {}            # point -> verdict for Overflow / division asserts
+        self.tainted = set()       # variables computed by a subtraction that is not known to stay >= 0 (wraps in release builds)
 
     # ---- variables
     def is_int(self, ty):
@@ -481,6 +549,8 @@ class BoundsAnalysis:
             self.kill_related(z, x[1])
             return
         y, c = src
+        if y in self.tainted:
+            self.tainted.add(x)
         # writing x invalidates everything below / above it first (other than x itself)
         for v in list(z.vars()):
             if v != Z and v != x and v != y and related(v[1], x[1]):
@@ -536,6 +606,15 @@ class BoundsAnalysis:
                 if fty in UNSIGNED_BITS and dty in UNSIGNED_BITS and UNSIGNED_BITS[fty] <= UNSIGNED_BITS[dty]:
                     self.set_var(z, x, self.operand(r['o']))
                     z.add(x, Z, 2 ** UNSIGNED_BITS[fty] - 1)
+                    z.add(Z, x, 0)
+                elif fty in UNSIGNED_BITS and dty in ('i16', 'i32', 'i64', 'isize', 'i128') and \
+                        UNSIGNED_BITS[fty] < {'i16': 16, 'i32': 32, 'i64': 64, 'isize': 64, 'i128': 128}[dty]:
+                    self.set_var(z, x, self.operand(r['o']))
+                    z.add(x, Z, 2 ** UNSIGNED_BITS[fty] - 1)
+                    z.add(Z, x, 0)
+                elif fty in ('i8', 'i16', 'i32', 'i64', 'isize') and dty in UNSIGNED_BITS and self._nonneg_fits(z, r['o'], fty, dty):
+                    # a signed value known to be >= 0 (and small enough) keeps its value
+                    self.set_var(z, x, self.operand(r['o']))
                     z.add(Z, x, 0)
                 else:
                     # not value preserving, but a function of its operand: two casts of the same unchanged location agree
@@ -595,23 +674,69 @@ class BoundsAnalysis:
                         if src is not None:
                             z.assign(('loc', x[1] + (('f', n),)), src[0], src[1])
 
+    def _nonneg_fits(self, z, o, fty, dty):
+        src = self.operand(o)
+        if src is None:
+            return False
+        if src[0] == Z:
+            return 0 <= src[1] < 2 ** UNSIGNED_BITS[dty]
+        zz = z.copy()
+        lb = zz.bound(Z, src[0])
+        if lb is None or -lb + src[1] < 0:
+            return False
+        sbits = {'i8': 7, 'i16': 15, 'i32': 31, 'i64': 63, 'isize': 63}[fty]
+        if sbits <= UNSIGNED_BITS[dty]:
+            return True
+        ub = zz.bound(src[0], Z)
+        return ub is not None and ub + src[1] < 2 ** UNSIGNED_BITS[dty]
+
     def assign_bin(self, z, x, r):
         op = r['op'].replace('WithOverflow', '').replace('Unchecked', '')
         A, B = self.operand(r['a']), self.operand(r['b'])
+        checked = r['op'].endswith('WithOverflow')
+        tyA = self.operand_ty(r['a'])
         if op in ('Add', 'Sub') and A is not None and B is not None:
             if B[0] == Z:
+                # does the operation stay inside the type?  (checked arithmetic panics otherwise — the value is then never used —
+                # unchecked arithmetic wraps: an underflowed `a - c` is huge, an overflowed `a + c` small)
+                safe = True
+                if tyA in UNSIGNED_BITS and A[0] != Z:
+                    zz = z.copy()
+                    if op == 'Sub' and B[1] > 0:
+                        lb = zz.bound(Z, A[0])                 # 0 - a <= lb   ->  a >= -lb
+                        safe = lb is not None and (-lb + A[1]) >= B[1]
+                    elif op == 'Add' and B[1] > 0:
+                        ub = zz.bound(A[0], Z)
+                        safe = ub is not None and ub + A[1] + B[1] <= 2 ** UNSIGNED_BITS[tyA] - 1
                 self.set_var(z, x, (A[0], A[1] + (B[1] if op == 'Add' else -B[1])))
+                if not safe:
+                    if op == 'Sub':
+                        self.tainted.add(x)                    # an index built from it may be a wrapped value
+                    if not checked:
+                        # keep only the direction that survives wrapping
+                        if op == 'Sub':
+                            z.e = {k: c for k, c in z.e.items() if k[1] != x}      # drop upper bounds of x
+                        else:
+                            z.e = {k: c for k, c in z.e.items() if k[0] != x}      # drop lower bounds of x
                 return
             if A[0] == Z and op == 'Add':
                 self.set_var(z, x, (B[0], B[1] + A[1]))
                 return
-            # x = a - b with unsigned b: x <= a ; x = a + b: x >= a, x >= b
+            # x = a - b with unsigned b: x <= a ; x = a + b: x >= a, x >= b   (only when the operation cannot wrap)
             ty = self.operand_ty(r['a'])
+            safe = checked
+            if ty in UNSIGNED_BITS and op == 'Sub':
+                zz = z.copy()
+                bd = zz.bound(B[0], A[0]) if B[0] != A[0] else 0
+                proven = bd is not None and bd + B[1] - A[1] <= 0
+                if not proven:
+                    self.tainted.add(x)
+                safe = checked or proven
             self.set_var(z, x, None)
-            if ty in UNSIGNED_BITS:
+            if ty in UNSIGNED_BITS and safe:
                 if op == 'Sub':
                     z.add(x, A[0], A[1])
-                else:
+                elif checked:
                     z.add(A[0], x, -A[1])
                     z.add(B[0], x, -B[1])
             return
@@ -715,7 +840,18 @@ class BoundsAnalysis:
                 for cl, locs in self.caps.items():
                     if d[0] == cl:
                         for x in locs:
-                            self.kill_related(z, x)
+                            if (cl, x) in self.mono_caps and ('loc', x) in z.vars():
+                                # the closure only ever increases this counter: what bounded it from below still does
+                                z.forget_upper(('loc', x))
+                                for v in list(z.vars()):
+                                    if v != Z and v != ('loc', x) and related(v[1], x):
+                                        z.forget(v)
+                                for l_, info in list(self.cmp.items()):
+                                    if any(isinstance(t_, tuple) and t_[0] != Z and isinstance(t_[0], tuple) and related(t_[0][1], x)
+                                           for t_ in info[1:]):
+                                        self.cmp.pop(l_, None)
+                            else:
+                                self.kill_related(z, x)
         if local_callee is not None and local_callee.d['kind'] != 'Closure':
             self.calls_made.setdefault(local_callee.key, []).append(self.project_call(z, t, local_callee))
         if name == 'then' and len(args) == 2 and args[0]['k'] in ('copy', 'move') and not args[0]['p']['pr'] \
@@ -742,6 +878,7 @@ class BoundsAnalysis:
             if cv is not None and dty in INT_TYS:
                 z.assign(dx, cv, 0)
                 z.add(Z, cv, 0)
+                z.add(cv, Z, 2 ** 63 - 1)       # no allocation is larger than isize::MAX
         elif name == 'is_empty' and len(args) == 1 and not dest['pr']:
             cv = self.container_var(args[0])
             if cv is not None:
@@ -893,16 +1030,25 @@ class BoundsAnalysis:
                             if d is not None and len(d) >= 2 and d[0] == 1:
                                 written.add(d[1])
         ren = []
+        mono = []      # mutably captured counters that the closure only ever increases: their lower bounds survive between calls
         for k, op in enumerate(agg['ops']):
-            if k >= len(ups) or ups[k].get('mut') or op['k'] not in ('copy', 'move'):
+            if k >= len(ups) or op['k'] not in ('copy', 'move'):
                 continue
             name = ups[k]['n']
-            if ('f', name) in written:
-                continue
             P = loc_of_place(self.b, op['p'])
             if P is None:
                 continue
+            if ups[k].get('mut') or ('f', name) in written:
+                if _only_incremented(cb, (1, ('f', name))) and not any(_touches(cc, (1, ('f', name))) for cc in self.f.closures_of(cb)):
+                    mono.append((P, (1, ('f', name))))
+                continue
             ren.append((P, (1, ('f', name))))
+        if mono:
+            zz0 = z.copy()
+            for P, C in mono:
+                lb = zz0.bound(Z, ('loc', P))
+                if lb is not None:
+                    out.add(Z, ('loc', C), lb)
         if not ren:
             return out
 
@@ -1077,6 +1223,17 @@ class BoundsAnalysis:
     # ---- obligations
     def check_site(self, z, t, pt):
         c = t.get('callee') or {}
+        if c.get('name') in ('get', 'get_mut') and len(t['args']) == 2 and (t.get('arg_tys') or ['', ''])[1] == 'usize' \
+                and not (c.get('local')):
+            # a checked access cannot go out of bounds, but its index expression can still underflow (a panic in overflow-checked
+            # builds): the index must not be the result of a subtraction that is not known to stay >= 0
+            i = self.operand(t['args'][1])
+            bad = i is not None and i[0] in self.tainted and not z.bottom
+            self.sites[pt] = {'kind': 'get', 'ok': not bad, 'why': ('index computed by a subtraction that is not known to stay >= 0 '
+                                                                    '(panics in overflow-checked builds)') if bad else 'checked access',
+                              'span': t['s'], 'cont_ty': (t.get('arg_tys') or ['?'])[0], 'container': None,
+                              'via_index_vector': False}
+            return
         if c.get('name') not in ('index', 'index_mut') or len(t['args']) != 2:
             return
         if (t.get('arg_tys') or ['', ''])[1] != 'usize':
@@ -1095,12 +1252,35 @@ class BoundsAnalysis:
             bd = zz.bound(i[0], cv)
             if zz.bottom:
                 ok, why = True, 'unreachable'
+            elif i[0] in self.tainted:
+                why = 'the index is computed by a subtraction that is not known to stay >= 0: it panics in overflow-checked builds ' \
+                      'and wraps to a huge index otherwise'
             elif bd is not None and bd + i[1] <= -1:
                 ok, why = True, 'index - len <= %d' % (bd + i[1])
             else:
                 why = 'no bound of the index by the length of %s on some path (best: %s)' % (_fmt(cv), bd)
         self.sites[pt] = {'kind': 'index', 'ok': ok, 'why': why, 'span': t['s'], 'cont_ty': (t.get('arg_tys') or ['?'])[0],
                           'container': _fmt(cv) if cv else None, 'via_index_vector': _from_index_vector(self.b, t['args'][1])}
+
+    SIGNED_BITS = {'i8': 8, 'i16': 16, 'i32': 32, 'i64': 64, 'isize': 64}
+
+    def num_bounds(self, z, T, ty):
+        """(lower, upper) numeric bounds of a linear operand T = (var, off) of type ty, from the state and the type"""
+        tlo, thi = None, None
+        if ty in UNSIGNED_BITS:
+            tlo, thi = 0, 2 ** UNSIGNED_BITS[ty] - 1
+        elif ty in self.SIGNED_BITS:
+            tlo, thi = -2 ** (self.SIGNED_BITS[ty] - 1), 2 ** (self.SIGNED_BITS[ty] - 1) - 1
+        if T is None:
+            return tlo, thi
+        if T[0] == Z:
+            return T[1], T[1]
+        zz = z.copy()
+        ub = zz.bound(T[0], Z)
+        lb = zz.bound(Z, T[0])
+        hi = thi if ub is None else (ub + T[1] if thi is None else min(thi, ub + T[1]))
+        lo = tlo if lb is None else (-lb + T[1] if tlo is None else max(tlo, -lb + T[1]))
+        return lo, hi
 
     def check_arith(self, z, t, pt):
         m = t['msg']
@@ -1137,7 +1317,40 @@ class BoundsAnalysis:
             if ua is not None and ub is not None and ua + ub <= 2 ** UNSIGNED_BITS[ty] - 1:
                 ok, why = True, 'sum <= %d' % (ua + ub)
             else:
-                why = 'no upper bound that keeps the sum inside %s' % ty
+                # relational: a <= c - k for some bounded c (e.g. `x < y` with y of the same type makes x + 1 fit)
+                tmax = 2 ** UNSIGNED_BITS[ty] - 1
+                cl_ = t.get('c', {}).get('p', {}).get('l') if isinstance(t.get('c'), dict) else None
+                if B[0] == Z and A[0] != Z:
+                    for (y_, x_), c_ in list(zz.e.items()):
+                        if x_ == A[0] and y_ != Z and isinstance(y_, tuple) and y_[0] == 'loc' and y_[1][0] != cl_ \
+                                and self.b.local_ty(y_[1][0]) == ty and len(y_[1]) == 1:
+                            # a - y <= c_  with y <= tmax  ->  a <= tmax + c_
+                            if c_ + A[1] + B[1] <= 0:
+                                ok, why = True, 'bounded by another value of the same width'
+                                break
+                if not ok:
+                    why = 'no upper bound that keeps the sum inside %s' % ty
+        elif kind == 'Overflow' and op in ('Add', 'Sub') and ty in self.SIGNED_BITS and A is not None and B is not None:
+            alo, ahi = self.num_bounds(z, A, None)
+            blo, bhi = self.num_bounds(z, B, None)
+            tlo, thi = -2 ** (self.SIGNED_BITS[ty] - 1), 2 ** (self.SIGNED_BITS[ty] - 1) - 1
+            if None not in (alo, ahi, blo, bhi):
+                lo = alo + blo if op == 'Add' else alo - bhi
+                hi = ahi + bhi if op == 'Add' else ahi - blo
+                if tlo <= lo and hi <= thi:
+                    ok, why = True, 'result within [%d, %d]' % (lo, hi)
+            if not ok:
+                why = 'operands of the signed %s are not bounded' % op.lower()
+        elif kind in ('DivisionByZero', 'RemainderByZero'):
+            ok, why = False, 'divisor not known to be non-zero'
+            # the assert's condition is `divisor == 0` (expected false); a constant divisor makes it a constant
+            c_ = t.get('c')
+            if isinstance(c_, dict) and c_.get('k') in ('copy', 'move') and not c_['p']['pr']:
+                d_ = _single_def(self.b, c_['p']['l'])
+                if d_ is not None and d_[1] == 'assign' and d_[2]['r']['k'] == 'bin' and d_[2]['r']['op'] == 'Eq':
+                    ra, rb = d_[2]['r']['a'], d_[2]['r']['b']
+                    if ra['k'] == 'const' and rb['k'] == 'const' and 'int' in ra and 'int' in rb and ra['int'] != rb['int']:
+                        ok, why = True, 'constant non-zero divisor'
         else:
             why = 'not discharged (%s %s on %s)' % (kind, op, ty)
         ub_b = None
@@ -1159,7 +1372,9 @@ class BoundsAnalysis:
         else:
             zz = z.copy()
             bd = zz.bound(I[0], L[0])
-            if bd is not None and bd + I[1] - L[1] <= -1:
+            if I[0] in self.tainted:
+                why = 'the index is computed by a subtraction that is not known to stay >= 0'
+            elif bd is not None and bd + I[1] - L[1] <= -1:
                 ok, why = True, 'index - len <= %d' % (bd + I[1] - L[1])
             else:
                 why = 'no bound of the index by the slice length on some path (best: %s)' % bd
@@ -1239,7 +1454,7 @@ def analyse_crate(facts, want=None):
     taken = _address_taken(facts)
 
     def interesting(b):
-        has_sites = any((t.get('callee') or {}).get('name') in ('index', 'index_mut') for _, t in b.calls()) or \
+        has_sites = any((t.get('callee') or {}).get('name') in ('index', 'index_mut', 'get', 'get_mut') for _, t in b.calls()) or \
             any(b.term(i)['k'] == 'assert' and isinstance(b.term(i).get('msg'), dict) and b.term(i)['msg'].get('kind') == 'BoundsCheck'
                 for i in range(len(b.blocks)))
         has_closures = any(s['k'] == 'assign' and s['r']['k'] == 'agg' and s['r'].get('ak') == 'closure' for _, s in b.points())
@@ -1304,8 +1519,9 @@ def analyse_crate(facts, want=None):
 ASSUMED = {
     'Vec<i64>': (7, 'helpers::stream_chunks_of_combined_source_map: `mappings_data` holds 5 numbers per inner segment; `m * 5` / `mi + k` '
                     'with m, idx < len / 5 from the binary search — multiplication is outside the difference-constraint domain'),
-    'Vec<helpers::SourceMapLineData>': (1, 'combined map: `find_inner_mapping` returned Some for this line, which it does only after '
-                                           'checking `line <= len` (fact established in another closure)'),
+    'Vec<helpers::SourceMapLineData>': (2, 'combined map: (i) `find_inner_mapping` returned Some for this line, which it does only after '
+                                           'checking 1 <= line <= len (fact established in another closure); (ii) `line_data[generated_line '
+                                           '- 1]` with the generated line of a mapping produced by the decoder, which counts lines from 1'),
     'Vec<rope::Rope>': (1, 'combined map: `chunks[idx]`, one chunk per 5-number segment of the same line (data-structure invariant)'),
     'Vec<&replace_source::Replacement>': (1, 'ReplaceSource::stream_chunks: `repls[i]` under `next_replacement.is_some()`, which is set '
                                              'only from `i < repls.len()` (option-valued invariant)'),
